@@ -1,5 +1,5 @@
 (* Proofs/Icmp6Spoof.v — proofs about the icmp_spoofer event system (C14). *)
-From PV Require Import Base.Prelude Model.Icmp6SpoofRA Model.Icmp6Spoof.
+From PV Require Import Base.Prelude Base.Text Model.Icmp6SpoofRA Model.Icmp6Spoof Spec.RFC4861 Model.Icmp6SpoofKnown Proofs.Icmp6SpoofRA.
 Open Scope N_scope.
 
 (* ---------------------------------------------------------------- *)
@@ -227,4 +227,448 @@ Proof.
   eexists. eexists. eexists. split.
   - vm_compute. right. right. right. left. reflexivity.
   - reflexivity.
+Qed.
+
+(* ---------------------------------------------------------------- *)
+(* C14_router_exact *)
+
+Definition processed_ra (st : state) : Prop := Z.rem (repeat_ st + 1) 4 = 0%Z.
+
+Definition learned_mac (d : ra_info) (eth : bytes) : bytes :=
+  let m := last (sllas (ra_opts d)) [] in if (List.length m =? 6)%nat then m else eth.
+
+Definition ra_result (st : state) (src eth p : bytes) (d : ra_info) : Prop :=
+  let st' := fst (rx_ra st src eth p true) in
+  snd (rx_ra st src eth p true) = ORA (Ok tt) /\
+  exists r, rt_find (routers st') src = Some r /\
+    hdr_exact r d /\ opts_exact r d /\
+    (known_ri_multiple d = false -> routes_exact r d) /\
+    (known_rdnss_multiple d = false -> rdnss_exact r d) /\
+    (known_dnssl_multiple d = false -> dnssl_exact r d) /\
+    (rt_find (routers st) src = None ->
+       defrouter st' = Some src /\ r_ip r = src /\ r_mac r = learned_mac d eth) /\
+    (forall r0, rt_find (routers st) src = Some r0 ->
+       defrouter st' = defrouter st /\ r_ip r = r_ip r0 /\ r_mac r = r_mac r0).
+
+Lemma update_exact r0 p d :
+  bytes_ok p -> ra_decode p = Some d ->
+  let r := router_update r0 p (fold_left apply1 (ra_opts d) opts_zero) in
+  hdr_exact r d /\ opts_exact r d /\
+  (known_ri_multiple d = false -> routes_exact r d) /\
+  (known_rdnss_multiple d = false -> rdnss_exact r d) /\
+  (known_dnssl_multiple d = false -> dnssl_exact r d).
+Proof.
+  intros Hok Hd. pose proof (ra_decode_shape _ _ Hd) as Hshape.
+  unfold ra_decode in Hd.
+  destruct p as [|a0 [|a1 [|a2 [|a3 [|a4 [|a5 [|a6 [|a7 [|a8 [|a9 [|a10 [|a11 [|a12 [|a13 [|a14 [|a15 optb]]]]]]]]]]]]]]]];
+    try discriminate.
+  destruct (split_tlv _ _) as [tl|]; [|discriminate].
+  destruct (decode_all tl) as [os|]; [|discriminate]. inversion Hd; subst d. clear Hd.
+  do 16 (apply bytes_ok_cons' in Hok; destruct Hok as [? Hok]).
+  cbv zeta. cbn [ra_opts] in *.
+  split; [|split; [|split; [|split]]].
+  - unfold hdr_exact, router_update. cbn [r_managed r_other r_prf r_hop r_life r_reach r_retrans
+      ra_managed ra_other ra_prf ra_hop ra_life ra_reach ra_retrans].
+    unfold be32_at, be16_at, at_. cbn [nth Nat.add].
+    rewrite bit7, bit6, prf_bits, !be32_w32 by assumption. unfold be16. repeat split; reflexivity.
+  - unfold opts_exact, router_update. cbn [r_opts r_mtu r_prefixes ra_opts].
+    rewrite fold_slla, fold_mtu, fold_prefixes. cbn [opts_zero o_slla o_mtu o_prefixes app]. repeat split; reflexivity.
+  - intros Hk. unfold routes_exact, router_update. cbn [r_opts ra_opts].
+    apply fold_routes_exact. unfold known_ri_multiple in Hk. cbn [ra_opts] in Hk. apply Nat.leb_gt in Hk. exact Hk.
+  - intros Hk. unfold rdnss_exact, router_update. cbn [r_opts ra_opts].
+    apply fold_rdnss_exact; [exact Hshape|]. unfold known_rdnss_multiple in Hk. cbn [ra_opts] in Hk. apply Nat.leb_gt in Hk. exact Hk.
+  - intros Hk. unfold dnssl_exact, router_update. cbn [r_opts ra_opts].
+    apply fold_dnssl_exact; [exact Hshape|]. unfold known_dnssl_multiple in Hk. cbn [ra_opts] in Hk. apply Nat.leb_gt in Hk. exact Hk.
+Qed.
+
+Lemma ra_decode_len p d : ra_decode p = Some d -> (blen p <? 16) = false.
+Proof.
+  unfold ra_decode. intros H.
+  destruct p as [|a0 [|a1 [|a2 [|a3 [|a4 [|a5 [|a6 [|a7 [|a8 [|a9 [|a10 [|a11 [|a12 [|a13 [|a14 [|a15 optb]]]]]]]]]]]]]]]];
+    try discriminate.
+  unfold blen. cbn [List.length]. lia.
+Qed.
+
+Theorem router_exact st src eth p d :
+  bytes_ok p -> ra_decode p = Some d -> processed_ra st -> ra_result st src eth p d.
+Proof.
+  intros Hok Hd Hp. unfold ra_result, rx_ra.
+  rewrite (ra_decode_len _ _ Hd). unfold processed_ra in Hp. rewrite Hp.
+  change (negb (0 =? 0)%Z) with false. cbv iota. change (negb true) with false. cbv iota.
+  rewrite (ra_options_exact _ _ Hok Hd).
+  set (o := fold_left apply1 (ra_opts d) opts_zero).
+  assert (Hslla : o_slla o = last (sllas (ra_opts d)) []) by (unfold o; rewrite fold_slla; reflexivity).
+  destruct (update_exact (router_new (if (List.length (o_slla o) =? 6)%nat then o_slla o else eth) src) p d Hok Hd) as [H1 [H2 [H3 [H4 H5]]]].
+  destruct (rt_find (routers st) src) as [r0|] eqn:Ef; cbn [fst snd].
+  - split; [reflexivity|]. exists (router_update r0 p o). cbn [routers defrouter]. rewrite rt_find_set.
+    destruct (update_exact r0 p d Hok Hd) as [G1 [G2 [G3 [G4 G5]]]].
+    split; [reflexivity|]. split; [exact G1|]. split; [exact G2|]. split; [exact G3|]. split; [exact G4|].
+    split; [exact G5|]. split; [discriminate|].
+    intros r1 Hr1. inversion Hr1; subst. repeat split; reflexivity.
+  - split; [reflexivity|]. eexists. cbn [routers defrouter]. rewrite rt_find_set.
+    split; [reflexivity|]. split; [exact H1|]. split; [exact H2|]. split; [exact H3|]. split; [exact H4|].
+    split; [exact H5|]. split; [|discriminate].
+    intros _. split; [reflexivity|]. split; [reflexivity|].
+    unfold learned_mac. rewrite <- Hslla. reflexivity.
+Qed.
+
+(* an advertisement that is not processed leaves the router table alone *)
+Theorem router_skipped st src eth p hk :
+  Z.rem (repeat_ st + 1) 4 <> 0%Z \/ hk = false ->
+  routers (fst (rx_ra st src eth p hk)) = routers st /\ defrouter (fst (rx_ra st src eth p hk)) = defrouter st.
+Proof.
+  intros H. unfold rx_ra. destruct (blen p <? 16); [auto|].
+  destruct (Z.eqb_spec (Z.rem (repeat_ st + 1) 4) 0) as [E|E]; cbn [negb]; [|auto].
+  destruct H as [H | ->]; [congruence|]. cbn [negb]. auto.
+Qed.
+
+(* refutations of the list-valued parts: witnesses are the directed advertisements of the harness *)
+Definition hexb (s : string) : bytes := match bytes_of_hex s with Some b => b | None => [] end.
+Definition wit_ri : bytes := hexb "86000000400007080000000000000000180230080000025820010db80001000018023818000002bc20010db800020300".
+Definition wit_rdnss : bytes := hexb "8600000040000708000000000000000019030000000002582001486048600000000000000000888819030000000004b020014860486000000000000000008844".
+Definition wit_dnssl : bytes := hexb "860000004000070800000000000000001f03000000000258076578616d706c6503636f6d000000001f0300000000038404686f6d650461727061000000000000".
+
+Definition learn1 (p : bytes) : option router :=
+  rt_find (routers (fst (rx_ra (init 3) ex_src [0;102;102;102;102;102] p true))) ex_src.
+
+Lemma routes_refuted : exists p d r, bytes_ok p /\ ra_decode p = Some d /\ processed_ra (init 3) /\
+  learn1 p = Some r /\ known_ri_multiple d = true /\ ~ routes_exact r d.
+Proof.
+  exists wit_ri. destruct (ra_decode wit_ri) as [d|] eqn:E; [|vm_compute in E; discriminate].
+  destruct (learn1 wit_ri) as [r|] eqn:El; [|vm_compute in El; discriminate].
+  exists d, r. split; [apply bytes_okb_spec; vm_compute; reflexivity|]. split; [reflexivity|].
+  split; [reflexivity|]. split; [reflexivity|].
+  vm_compute in E. inversion E; subst d. vm_compute in El. inversion El; subst r.
+  split; [vm_compute; reflexivity|]. unfold routes_exact. vm_compute. discriminate.
+Qed.
+
+Lemma rdnss_refuted : exists p d r, bytes_ok p /\ ra_decode p = Some d /\ processed_ra (init 3) /\
+  learn1 p = Some r /\ known_rdnss_multiple d = true /\ ~ rdnss_exact r d.
+Proof.
+  exists wit_rdnss. destruct (ra_decode wit_rdnss) as [d|] eqn:E; [|vm_compute in E; discriminate].
+  destruct (learn1 wit_rdnss) as [r|] eqn:El; [|vm_compute in El; discriminate].
+  exists d, r. split; [apply bytes_okb_spec; vm_compute; reflexivity|]. split; [reflexivity|].
+  split; [reflexivity|]. split; [reflexivity|].
+  vm_compute in E. inversion E; subst d. vm_compute in El. inversion El; subst r.
+  split; [vm_compute; reflexivity|]. unfold rdnss_exact. vm_compute. discriminate.
+Qed.
+
+Lemma dnssl_refuted : exists p d r, bytes_ok p /\ ra_decode p = Some d /\ processed_ra (init 3) /\
+  learn1 p = Some r /\ known_dnssl_multiple d = true /\ ~ dnssl_exact r d.
+Proof.
+  exists wit_dnssl. destruct (ra_decode wit_dnssl) as [d|] eqn:E; [|vm_compute in E; discriminate].
+  destruct (learn1 wit_dnssl) as [r|] eqn:El; [|vm_compute in El; discriminate].
+  exists d, r. split; [apply bytes_okb_spec; vm_compute; reflexivity|]. split; [reflexivity|].
+  split; [reflexivity|]. split; [reflexivity|].
+  vm_compute in E. inversion E; subst d. vm_compute in El. inversion El; subst r.
+  split; [vm_compute; reflexivity|]. unfold dnssl_exact. vm_compute. discriminate.
+Qed.
+
+(* non-vacuity of router_exact: an advertisement with one option of every kind is in its domain
+   and outside every recorded class *)
+Definition wit_all : bytes := hexb
+  "8600000040c8070800000001000000020101aabbccddeeff05010000000005dc03043cc000015180000038400000000020010db8000100ff000000000000000018023c080000025820010db8000000f01903000000000258200148604860000000000000000088881f03000000000258076578616d706c6503636f6d000000000e01010203040506".
+
+Example router_exact_nonvacuous : exists d,
+  bytes_ok wit_all /\ ra_decode wit_all = Some d /\ processed_ra (init 3) /\
+  List.length (ra_opts d) = 7%nat /\
+  known_ri_multiple d = false /\ known_rdnss_multiple d = false /\ known_dnssl_multiple d = false.
+Proof.
+  destruct (ra_decode wit_all) as [d|] eqn:E; [|vm_compute in E; discriminate].
+  exists d. split; [apply bytes_okb_spec; vm_compute; reflexivity|]. split; [reflexivity|].
+  split; [reflexivity|]. vm_compute in E. inversion E; subst d. repeat split; reflexivity.
+Qed.
+
+(* ---------------------------------------------------------------- *)
+(* C14_start_filters *)
+
+Theorem start_rejects_ip4 c st a : is4 (a_ip a) = true ->
+  step c st (StartHunt a) = (st, OStage NoChange (Some EInvalidIP)).
+Proof. intros H. cbn [step]. unfold start_hunt. rewrite H. reflexivity. Qed.
+
+Theorem start_ignores_non_lla c st a : is6 (a_ip a) = true -> is_llu (a_ip a) = false ->
+  step c st (StartHunt a) = (st, OStage NoChange None).
+Proof.
+  intros H6 Hl. cbn [step]. unfold start_hunt.
+  assert (H4 : is4 (a_ip a) = false).
+  { unfold is4, is6 in *. apply Nat.eqb_eq in H6. rewrite H6. reflexivity. }
+  rewrite H4, H6, Hl. reflexivity.
+Qed.
+
+Lemma al_index_app_has l a : al_has (l ++ [a]) (a_mac a) = true.
+Proof.
+  unfold al_has. induction l as [|x r IH]; cbn [app al_index].
+  - rewrite bytes_eqb_refl. reflexivity.
+  - destruct (bytes_eqb (a_mac x) (a_mac a)); [reflexivity|].
+    destruct (al_index (r ++ [a]) (a_mac a)); [reflexivity|discriminate].
+Qed.
+
+Lemma al_has_add l a : al_has (al_add l a) (a_mac a) = true.
+Proof. unfold al_add. destruct (al_has l (a_mac a)) eqn:E; [exact E|apply al_index_app_has]. Qed.
+
+(* StartHunt of a MAC that is already hunted changes nothing and starts no loop;
+   after any accepted StartHunt the MAC is hunted (so the next one is such a no-op) *)
+Theorem start_idempotent c st a : al_has (hunt st) (a_mac a) = true ->
+  is4 (a_ip a) = false -> (is6 (a_ip a) && negb (is_llu (a_ip a))) = false ->
+  step c st (StartHunt a) = (st, OStage Hunt None).
+Proof. intros H H4 H6. cbn [step]. unfold start_hunt. rewrite H4, H6, H. reflexivity. Qed.
+
+Theorem start_then_hunted c st a : snd (step c st (StartHunt a)) = OStage Hunt None ->
+  al_has (hunt (fst (step c st (StartHunt a)))) (a_mac a) = true.
+Proof.
+  cbn [step]. unfold start_hunt.
+  destruct (is4 (a_ip a)); [discriminate|].
+  destruct (is6 (a_ip a) && negb (is_llu (a_ip a))); [discriminate|].
+  destruct (al_has (hunt st) (a_mac a)) eqn:E; intros _; cbn [fst hunt]; [exact E|apply al_has_add].
+Qed.
+
+(* an accepted StartHunt of a new MAC adds exactly that MAC and exactly one loop *)
+Theorem start_new c st a : al_has (hunt st) (a_mac a) = false ->
+  is4 (a_ip a) = false -> (is6 (a_ip a) && negb (is_llu (a_ip a))) = false ->
+  let st' := fst (step c st (StartHunt a)) in
+  hunt st' = hunt st ++ [a] /\ List.length (loops st') = S (List.length (loops st)).
+Proof.
+  intros H H4 H6. cbn [step]. unfold start_hunt, al_add. rewrite H4, H6, H. cbn [fst hunt loops].
+  split; [reflexivity|]. rewrite app_length. cbn [List.length]. lia.
+Qed.
+
+Example start_filters_nonvacuous :
+  is4 [192;168;0;10] = true /\
+  (is6 (hexb "20010db8000000000000000000000001") = true /\ is_llu (hexb "20010db8000000000000000000000001") = false) /\
+  (is4 (hexb "fe800000000000000000000000000001") = false /\
+   (is6 (hexb "fe800000000000000000000000000001") && negb (is_llu (hexb "fe800000000000000000000000000001"))) = false).
+Proof. vm_compute. auto. Qed.
+
+(* ---------------------------------------------------------------- *)
+(* C14_stop *)
+
+Fixpoint uniq (l : list addr) : Prop :=
+  match l with [] => True | a :: r => al_has r (a_mac a) = false /\ uniq r end.
+
+Lemma al_has_cons a r mac : al_has (a :: r) mac = bytes_eqb (a_mac a) mac || al_has r mac.
+Proof. unfold al_has. cbn [al_index]. destruct (bytes_eqb (a_mac a) mac); [reflexivity|].
+  destruct (al_index r mac); reflexivity. Qed.
+
+Lemma al_has_app l a mac : al_has (l ++ [a]) mac = al_has l mac || bytes_eqb (a_mac a) mac.
+Proof.
+  induction l as [|x r IH]; cbn [app].
+  - rewrite al_has_cons. unfold al_has at 1 2. cbn [al_index]. rewrite orb_false_r. reflexivity.
+  - rewrite !al_has_cons, IH. rewrite orb_assoc. reflexivity.
+Qed.
+
+Lemma bytes_eqb_sym a b : bytes_eqb a b = bytes_eqb b a.
+Proof.
+  destruct (bytes_eqb a b) eqn:E.
+  - apply bytes_eqb_eq in E. subst. symmetry. apply bytes_eqb_refl.
+  - destruct (bytes_eqb b a) eqn:E2; [|reflexivity]. apply bytes_eqb_eq in E2. subst.
+    rewrite bytes_eqb_refl in E. discriminate.
+Qed.
+
+Lemma bytes_eqb_trans_false a b c : bytes_eqb a b = true -> bytes_eqb a c = bytes_eqb b c.
+Proof. intros H. apply bytes_eqb_eq in H. subst. reflexivity. Qed.
+
+Lemma al_has_del_other l m mac : al_has l mac = false -> al_has (al_del l m) mac = false.
+Proof.
+  induction l as [|a r IH]; intros H; [reflexivity|]. rewrite al_has_cons in H.
+  apply orb_false_iff in H as [H1 H2]. cbn [al_del].
+  destruct (bytes_eqb (a_mac a) m); [exact H2|]. rewrite al_has_cons, H1. cbn [orb]. apply IH. exact H2.
+Qed.
+
+Lemma al_del_removes l mac : uniq l -> al_has (al_del l mac) mac = false.
+Proof.
+  induction l as [|a r IH]; intros H; [reflexivity|]. destruct H as [Ha Hr]. cbn [al_del].
+  destruct (bytes_eqb (a_mac a) mac) eqn:E.
+  - apply bytes_eqb_eq in E. subst mac. exact Ha.
+  - rewrite al_has_cons, E. cbn [orb]. apply IH. exact Hr.
+Qed.
+
+Lemma uniq_del l m : uniq l -> uniq (al_del l m).
+Proof.
+  induction l as [|a r IH]; intros H; [exact I|]. destruct H as [Ha Hr]. cbn [al_del].
+  destruct (bytes_eqb (a_mac a) m); [exact Hr|]. split; [|apply IH; exact Hr].
+  apply al_has_del_other. exact Ha.
+Qed.
+
+Lemma uniq_app l a : uniq l -> al_has l (a_mac a) = false -> uniq (l ++ [a]).
+Proof.
+  induction l as [|x r IH]; intros H Hn; cbn [app].
+  - split; [reflexivity|exact I].
+  - destruct H as [Hx Hr]. rewrite al_has_cons in Hn. apply orb_false_iff in Hn as [Hn1 Hn2].
+    split; [|apply IH; assumption]. rewrite al_has_app, Hx. cbn [orb].
+    rewrite bytes_eqb_sym. exact Hn1.
+Qed.
+
+Lemma step_uniq c st e : uniq (hunt st) -> uniq (hunt (fst (step c st e))).
+Proof.
+  intros H. destruct e as [a|a| |i|src eth p hk]; cbn [step].
+  - unfold start_hunt. destruct (is4 (a_ip a)); [exact H|].
+    destruct (is6 (a_ip a) && negb (is_llu (a_ip a))); [exact H|].
+    destruct (al_has (hunt st) (a_mac a)) eqn:E; [exact H|]. cbn [fst hunt]. unfold al_add. rewrite E.
+    apply uniq_app; assumption.
+  - unfold stop_hunt. destruct (ip_valid (a_ip a) && negb (is_llu (a_ip a))); [exact H|].
+    cbn [fst hunt]. apply uniq_del. exact H.
+  - unfold close. destruct (closed st); exact H.
+  - unfold wake. destruct (nth_error (loops st) i) as [l|]; [|exact H].
+    destruct (negb (l_alive l)); [exact H|].
+    destruct (negb (al_has (hunt st) (a_mac (l_dst l))) || closed st); [exact H|].
+    destruct (defrouter st); exact H.
+  - unfold rx_ra. destruct (blen p <? 16); [exact H|].
+    destruct (negb (Z.rem (repeat_ st + 1) 4 =? 0)%Z); [exact H|].
+    destruct (negb hk); [exact H|].
+    destruct (ra_options p); try exact H.
+    destruct (rt_find (routers st) src); exact H.
+Qed.
+
+Lemma reach_uniq c s0 st : uniq (hunt s0) -> reach c s0 st -> uniq (hunt st).
+Proof. intros H0 Hr. induction Hr; auto. apply step_uniq. assumption. Qed.
+
+Definition stop_effective (a : addr) : Prop := ip_valid (a_ip a) = false \/ is_llu (a_ip a) = true.
+
+(* right after an effective StopHunt the MAC is not hunted *)
+Lemma stop_unhunts c st a : uniq (hunt st) -> stop_effective a ->
+  step c st (StopHunt a) = (fst (step c st (StopHunt a)), OStage Normal None) /\
+  al_has (hunt (fst (step c st (StopHunt a)))) (a_mac a) = false.
+Proof.
+  intros Hu He. cbn [step]. unfold stop_hunt.
+  assert (Hc : (ip_valid (a_ip a) && negb (is_llu (a_ip a))) = false).
+  { destruct He as [-> | ->]; [reflexivity|]. cbn [negb]. apply andb_false_r. }
+  rewrite Hc. cbn [fst hunt]. split; [reflexivity|]. apply al_del_removes. exact Hu.
+Qed.
+
+(* not hunted stays not hunted along any history without a StartHunt of that MAC *)
+Definition no_start (mac : bytes) (evs : list event) : Prop :=
+  forall a, In (StartHunt a) evs -> bytes_eqb (a_mac a) mac = false.
+
+Lemma step_keeps_unhunted c st e mac :
+  al_has (hunt st) mac = false -> (forall a, e = StartHunt a -> bytes_eqb (a_mac a) mac = false) ->
+  al_has (hunt (fst (step c st e))) mac = false.
+Proof.
+  intros H Hs. destruct e as [a|a| |i|src eth p hk]; cbn [step].
+  - unfold start_hunt. destruct (is4 (a_ip a)); [exact H|].
+    destruct (is6 (a_ip a) && negb (is_llu (a_ip a))); [exact H|].
+    destruct (al_has (hunt st) (a_mac a)) eqn:E; [exact H|]. cbn [fst hunt]. unfold al_add. rewrite E.
+    rewrite al_has_app, H. cbn [orb]. apply Hs. reflexivity.
+  - unfold stop_hunt. destruct (ip_valid (a_ip a) && negb (is_llu (a_ip a))); [exact H|].
+    cbn [fst hunt]. apply al_has_del_other. exact H.
+  - unfold close. destruct (closed st); exact H.
+  - unfold wake. destruct (nth_error (loops st) i) as [l|]; [|exact H].
+    destruct (negb (l_alive l)); [exact H|].
+    destruct (negb (al_has (hunt st) (a_mac (l_dst l))) || closed st); [exact H|].
+    destruct (defrouter st); exact H.
+  - unfold rx_ra. destruct (blen p <? 16); [exact H|].
+    destruct (negb (Z.rem (repeat_ st + 1) 4 =? 0)%Z); [exact H|].
+    destruct (negb hk); [exact H|].
+    destruct (ra_options p); try exact H.
+    destruct (rt_find (routers st) src); exact H.
+Qed.
+
+Lemma run_unhunted c mac : forall evs st, inv st ->
+  al_has (hunt st) mac = false -> no_start mac evs ->
+  forall s e l, In (s, e, ONAs l) (fst (run c st evs)) -> forall n, In n l -> bytes_eqb (na_eth_dst n) mac = false.
+Proof.
+  induction evs as [|e r IH]; intros st Hinv Hn Hs s e0 l Hin n Hnl; cbn [run] in Hin; [contradiction|].
+  destruct (step c st e) as [st' o] eqn:Hstep. destruct (run c st' r) as [tr fin] eqn:Hrun.
+  cbn [fst] in Hin. destruct Hin as [Heq|Hin].
+  - inversion Heq; subst s e0 o. clear Heq.
+    assert (Hf : forged_ok c st n).
+    { eapply step_confined; eauto. rewrite Hstep. reflexivity. }
+    destruct Hf as [Hh _]. destruct (bytes_eqb (na_eth_dst n) mac) eqn:E; [|reflexivity].
+    apply bytes_eqb_eq in E. subst mac. congruence.
+  - assert (H1 : inv st').
+    { replace st' with (fst (step c st e)) by (rewrite Hstep; reflexivity). apply step_inv. exact Hinv. }
+    assert (H2 : al_has (hunt st') mac = false).
+    { replace st' with (fst (step c st e)) by (rewrite Hstep; reflexivity).
+      apply step_keeps_unhunted; [exact Hn|]. intros a ->. apply Hs. left. reflexivity. }
+    assert (H3 : no_start mac r) by (intros a Ha; apply Hs; right; exact Ha).
+    apply (IH st' H1 H2 H3 s e0 l); [rewrite Hrun; exact Hin|exact Hnl].
+Qed.
+
+(* C14_stop, StopHunt part: after an effective StopHunt of a (any history before it), no forged
+   advertisement goes to a's MAC in any continuation that does not hunt that MAC again *)
+Theorem stop_no_more c rep evs1 a evs2 :
+  stop_effective a -> no_start (a_mac a) evs2 ->
+  let st := snd (run c (init rep) evs1) in
+  let st1 := fst (step c st (StopHunt a)) in
+  forall s e l, In (s, e, ONAs l) (fst (run c st1 evs2)) -> forall n, In n l -> bytes_eqb (na_eth_dst n) (a_mac a) = false.
+Proof.
+  intros He Hs st st1.
+  assert (Hr : reach c (init rep) st) by (apply run_final_reach; constructor).
+  assert (Hinv : inv st) by (eapply reach_inv; eauto; apply inv_init).
+  assert (Hu : uniq (hunt st)) by (eapply reach_uniq; eauto; exact I).
+  assert (H1 : inv st1) by (apply step_inv; exact Hinv).
+  assert (H2 : al_has (hunt st1) (a_mac a) = false) by (apply stop_unhunts; assumption).
+  intros s e l Hin n Hn. exact (run_unhunted c (a_mac a) evs2 st1 H1 H2 Hs s e l Hin n Hn).
+Qed.
+
+(* C14_stop, Close part: once closed, no loop pass emits anything, whatever happens afterwards *)
+Lemma step_closed c st e : closed st = true -> closed (fst (step c st e)) = true.
+Proof.
+  intros H. destruct e as [a|a| |i|src eth p hk]; cbn [step].
+  - unfold start_hunt. destruct (is4 (a_ip a)); [exact H|].
+    destruct (is6 (a_ip a) && negb (is_llu (a_ip a))); [exact H|].
+    destruct (al_has (hunt st) (a_mac a)); exact H.
+  - unfold stop_hunt. destruct (ip_valid (a_ip a) && negb (is_llu (a_ip a))); exact H.
+  - unfold close. rewrite H. exact H.
+  - unfold wake. destruct (nth_error (loops st) i) as [l|]; [|exact H].
+    destruct (negb (l_alive l)); [exact H|].
+    destruct (negb (al_has (hunt st) (a_mac (l_dst l))) || closed st); [exact H|].
+    destruct (defrouter st); exact H.
+  - unfold rx_ra. destruct (blen p <? 16); [exact H|].
+    destruct (negb (Z.rem (repeat_ st + 1) 4 =? 0)%Z); [exact H|].
+    destruct (negb hk); [exact H|].
+    destruct (ra_options p); try exact H.
+    destruct (rt_find (routers st) src); exact H.
+Qed.
+
+Lemma run_closed c : forall evs st, inv st -> closed st = true ->
+  forall s e l, In (s, e, ONAs l) (fst (run c st evs)) -> l = [].
+Proof.
+  induction evs as [|e r IH]; intros st Hinv Hc s e0 l Hin; cbn [run] in Hin; [contradiction|].
+  destruct (step c st e) as [st' o] eqn:Hstep. destruct (run c st' r) as [tr fin] eqn:Hrun.
+  cbn [fst] in Hin. destruct Hin as [Heq|Hin].
+  - inversion Heq; subst s e0 o. clear Heq. destruct l as [|n l']; [reflexivity|]. exfalso.
+    assert (Hf : forged_ok c st n).
+    { eapply step_confined; eauto; [rewrite Hstep; reflexivity|left; reflexivity]. }
+    destruct Hf as [_ [Hcl _]]. congruence.
+  - assert (H1 : inv st').
+    { replace st' with (fst (step c st e)) by (rewrite Hstep; reflexivity). apply step_inv. exact Hinv. }
+    assert (H2 : closed st' = true).
+    { replace st' with (fst (step c st e)) by (rewrite Hstep; reflexivity). apply step_closed. exact Hc. }
+    apply (IH st' H1 H2 s e0 l). rewrite Hrun. exact Hin.
+Qed.
+
+Theorem close_no_more c rep evs1 evs2 :
+  let st := snd (run c (init rep) evs1) in
+  let st1 := fst (step c st Close) in
+  forall s e l, In (s, e, ONAs l) (fst (run c st1 evs2)) -> l = [].
+Proof.
+  intros st st1.
+  assert (Hr : reach c (init rep) st) by (apply run_final_reach; constructor).
+  assert (Hinv : inv st) by (eapply reach_inv; eauto; apply inv_init).
+  assert (H1 : inv st1) by (apply step_inv; exact Hinv).
+  assert (H2 : closed st1 = true).
+  { unfold st1. cbn [step]. unfold close. destruct (closed st) eqn:E; [exact E|reflexivity]. }
+  intros s e l Hin. exact (run_closed c evs2 st1 H1 H2 s e l Hin).
+Qed.
+
+(* a loop whose MAC is no longer hunted (or a closed handler) dies at its next pass and never emits again *)
+Theorem wake_dead_stays_dead c st i l :
+  nth_error (loops st) i = Some l -> l_alive l = false -> step c st (Wake i) = (st, ONone).
+Proof. intros H Ha. cbn [step]. unfold wake. rewrite H, Ha. reflexivity. Qed.
+
+(* non-vacuity of stop_no_more: hunted, poisoned, stopped, woken again: nothing *)
+Definition ex_hist_stop1 : list event :=
+  [RxRA ex_src [0;102;102;102;102;102] ex_ra true; StartHunt (mkAddr ex_mac []); Wake 0].
+Definition ex_hist_stop2 : list event :=
+  [Wake 0; RxRA ex_src [0;102;102;102;102;102] ex_ra true; Wake 0].
+Example stop_nonvacuous :
+  stop_effective (mkAddr ex_mac []) /\ no_start ex_mac ex_hist_stop2 /\
+  (exists s e n, In (s, e, ONAs [n]) (fst (run ex_cfg (init 3) ex_hist_stop1)) /\ na_eth_dst n = ex_mac) /\
+  (exists s e, In (s, e, ONAs []) (fst (run ex_cfg (fst (step ex_cfg (snd (run ex_cfg (init 3) ex_hist_stop1)) (StopHunt (mkAddr ex_mac [])))) ex_hist_stop2))).
+Proof.
+  split; [left; reflexivity|]. split.
+  - intros a Ha. cbn in Ha. repeat (destruct Ha as [Ha|Ha]; [discriminate|]). contradiction.
+  - split.
+    + eexists. eexists. eexists. split; [vm_compute; right; right; left; reflexivity|reflexivity].
+    + eexists. eexists. vm_compute. left. reflexivity.
 Qed.
